@@ -269,8 +269,11 @@ func checkOffIdentity(c *Ctx) {
 							identity++
 						}
 					case *ssa.Call:
-						if callee := in.Call.StaticCallee(); callee != nil && callee.Pkg != nil && callee.Pkg.Pkg.Path() == modPath {
-							scan(callee, seen)
+						if callee := in.Call.StaticCallee(); callee != nil {
+							callee = originOf(callee)
+							if obj := callee.Object(); obj != nil && obj.Pkg() != nil && obj.Pkg().Path() == modPath {
+								scan(callee, seen)
+							}
 						}
 					}
 				}
@@ -297,7 +300,7 @@ func checkOffIdentity(c *Ctx) {
 			ok := true
 			detail := mech
 			switch {
-			case raw > 0 && fresh:
+			case raw > 0 && identity == 0 && fresh:
 				ok = false
 				detail = mech + "; " + FuncName(fn) + " passes the addresses of its own variadic slice elements while On/Once stored the address of their own parameter copy: the comparison is constantly false and the handler is never removed"
 			case raw == 0 && identity == 0:
